@@ -173,6 +173,11 @@ def st_dir(draw, P, Nt, good, avoided):
         "meta": draw(st.sampled_from(["dataset", "dataset", "group"])),
         "tensor": draw(st_tensor_spec()),
     }
+    # storage precision of the datasets ("exactly the numbers stored"): all double (usual), single precision for the
+    # first pair only / for every other pair / for all pairs
+    dd = draw(st.sampled_from([None, None, None, "first32", "first32", "alternate32", "all32"]))
+    if dd:
+        d["data_dtype"] = dd
     return d
 
 
@@ -300,6 +305,14 @@ def _make_grid(case):
     return WallGo.Grid(case["M"], case["Nt"], 1.0, case.get("T0", 1.0))
 
 
+def _pair_dtype(d, ia, ib, P):
+    dd = d.get("data_dtype")
+    k = ia * P + ib
+    if dd == "all32" or (dd == "first32" and k == 0) or (dd == "alternate32" and k % 2 == 0):
+        return "float32"
+    return "float64"
+
+
 def _file_specs(case, step):
     """What each file of the step's directory states: dict[(ia,ib)] -> (N_file, basis_file, tensor) or None."""
     P = len(case["names"])
@@ -319,6 +332,8 @@ def _file_specs(case, step):
                 S = cf.resize_tensor(S, N_file)
             if fault.get("kind") == "basis" and fault["pair"] == [ia, ib]:
                 b_file = "Cardinal" if d["basis"] == "Chebyshev" else "Chebyshev"
+            if _pair_dtype(d, ia, ib, P) == "float32":
+                S = np.asarray(S, dtype=np.float32).astype(float)     # the numbers the file will hold
             out[(ia, ib)] = (N_file, b_file, S)
     return out
 
@@ -335,7 +350,8 @@ def _write_step(path, case, step, specs):
         N_file, b_file, S = sp
         enc = d["enc"] if d["enc"] != "mixed" else encs[(ia * P + ib) % 3]
         cf.write_file(os.path.join(path, cf.file_name(names[ia], names[ib])), names[ia], names[ib], N_file, S,
-                      basis=b_file, attr_encoding=enc, size_dtype=d["size_dtype"], metadata_kind=d["meta"])
+                      basis=b_file, attr_encoding=enc, size_dtype=d["size_dtype"], metadata_kind=d["meta"],
+                      data_dtype=_pair_dtype(d, ia, ib, P))
 
 
 def _cls_action(P, interp, bs, br):
@@ -486,6 +502,7 @@ def check_history(case, v: Verdict):
                 continue
             # ---- good directory --------------------------------------------------------------
             interp = d["Ns"] > Nt
+            v.label(f"stored-dtype:{d.get('data_dtype') or 'float64'}")
             v.label("good:interp" if interp else "good:same-size", f"stored:{d['basis']}",
                     f"Ns{d['Ns']}", f"enc:{d['enc']}", f"tensor:{d['tensor']['kind']}",
                     f"good:P{'1' if P == 1 else '>=2'}:{'interp' if interp else 'same'}:"
